@@ -989,6 +989,7 @@ type orderTarget struct {
 
 var orderTargets = []orderTarget{
 	{"internal/transfer", "RecvManifestMultiStream", "writeAtWithTimeout", "markChunkComplete", "recv_write_before_mark"},
+	{"internal/transfer", "RecvManifestMultiStream", "writeAtWithTimeout", "@sidecarMark", "recv_write_before_any_mark"},
 	{"internal/transfer", "RecvManifestMultiStream", "Checksum", "writeAtWithTimeout", "recv_crc_before_write"},
 	{"internal/transfer", "RecvManifestMultiStream", "validateRelPath", "OpenFile", "recv_validate_before_open"},
 	{"internal/transfer", "RecvManifestMultiStream", "validateRelPath", "MkdirAll#parent", "recv_validate_before_mkdir"},
@@ -1054,6 +1055,95 @@ func allFuncsNamed(sp *ssa.Package, prog *ssa.Program, name string) []*ssa.Funct
 	return res
 }
 
+// reachSet: functions of the package from which a call to one of the named methods is (statically) reachable
+func reachSet(sp *ssa.Package, prog *ssa.Program, targets map[string]bool) map[*ssa.Function]bool {
+	var all []*ssa.Function
+	var addAnon func(f *ssa.Function)
+	addAnon = func(f *ssa.Function) {
+		all = append(all, f)
+		for _, a := range f.AnonFuncs {
+			addAnon(a)
+		}
+	}
+	for _, m := range sp.Members {
+		switch x := m.(type) {
+		case *ssa.Function:
+			addAnon(x)
+		case *ssa.Type:
+			for _, t := range []types.Type{x.Type(), types.NewPointer(x.Type())} {
+				ms := prog.MethodSets.MethodSet(t)
+				for i := 0; i < ms.Len(); i++ {
+					if fn := prog.MethodValue(ms.At(i)); fn != nil && fn.Pkg == sp {
+						addAnon(fn)
+					}
+				}
+			}
+		}
+	}
+	reach := map[*ssa.Function]bool{}
+	for changed := true; changed; {
+		changed = false
+		for _, f := range all {
+			if reach[f] {
+				continue
+			}
+			for _, b := range f.Blocks {
+				for _, ins := range b.Instrs {
+					var cc *ssa.CallCommon
+					switch x := ins.(type) {
+					case *ssa.Call:
+						cc = &x.Call
+					case *ssa.Go:
+						cc = &x.Call
+					case *ssa.Defer:
+						cc = &x.Call
+					}
+					if cc == nil {
+						continue
+					}
+					if targets[calleeName(cc)] {
+						reach[f] = true
+						changed = true
+					} else if g, ok := cc.Value.(*ssa.Function); ok && reach[g] {
+						reach[f] = true
+						changed = true
+					}
+				}
+			}
+		}
+	}
+	return reach
+}
+
+// findReachCalls: call sites (in fns) whose callee is a named target or reaches one
+func findReachCalls(fns []*ssa.Function, targets map[string]bool, reach map[*ssa.Function]bool) []callSite {
+	var res []callSite
+	for _, f := range fns {
+		for _, b := range f.Blocks {
+			for i, ins := range b.Instrs {
+				var cc *ssa.CallCommon
+				switch x := ins.(type) {
+				case *ssa.Call:
+					cc = &x.Call
+				case *ssa.Go:
+					cc = &x.Call
+				case *ssa.Defer:
+					cc = &x.Call
+				}
+				if cc == nil {
+					continue
+				}
+				if targets[calleeName(cc)] {
+					res = append(res, callSite{f, b, i})
+				} else if g, ok := cc.Value.(*ssa.Function); ok && reach[g] {
+					res = append(res, callSite{f, b, i})
+				}
+			}
+		}
+	}
+	return res
+}
+
 type callSite struct {
 	fn  *ssa.Function
 	blk *ssa.BasicBlock
@@ -1102,6 +1192,10 @@ func (w *world) genOrder() string {
 		snd := strings.SplitN(t.snd, "#", 2)[0]
 		as := findCalls(fns, t.first)
 		bs := findCalls(fns, snd)
+		if snd == "@sidecarMark" {
+			tg := map[string]bool{"MarkCompleteIfUnset": true, "MarkComplete": true}
+			bs = findReachCalls(fns, tg, reachSet(sp, w.prog, tg))
+		}
 		// every call of `snd` that shares a function with some call of `first` must be dominated by one;
 		// calls of `snd` in functions without `first` count as undominated unless the closure is only
 		// invoked from a dominated site (kept simple: require same function).
